@@ -378,5 +378,5 @@ func clearSubstitutionFlags(_ *otShapePlan, _ *Font, buffer *Buffer) bool {
 }
 
 func reverseGraphemes(b *Buffer) {
-	b.reverseGroups(func(_, gi2 *GlyphInfo) bool { return gi2.isContinuation() }, b.ClusterLevel == MonotoneGraphemes)
+	b.reverseGroups(func(_, gi2 *GlyphInfo) bool { return gi2.isContinuation() }, b.ClusterLevel == MonotoneCharacters)
 }
